@@ -87,6 +87,7 @@ NOTES = {
     'C04-r6-sumif-sized-like-first-cell': 'SUMIF / COUNTIF / AVERAGEIF in the grammar, the sum range also in Excel\'s shorthand (named by its first cell, a cell beside the criteria range)',
     'C05-r6-python-code-empty-after-failed-codegen': 'cells that cannot be compiled (and a reader of them) among the targets: every read of them has to raise, whatever was tried before; this workload reproduced D57 on the unmodified tree',
     'C06-r6-reference-cell-needs-calc-only': 'first pass ended in HARNESS-ERROR (a pass calculated #VALUE!, the harness subtracted it): a pass that calculates something that is not a number is now a verdict (C06-B, C09 cycle workload)',
+    'C12-r6-contained-cell-dropped-from-needed': 'caught at first (1 run), lost in the next batch (0 runs): alias gadget - single cells with coordinates inside a range of another sheet - and the cell on the other sheet as the site in half of those runs',
     'C09-r6-iferror-catches-failing-precedent': 'IFERROR / ISERROR / IFNA over the failing cell among its dependants',
     'C09-r5-iteration-counter-rewound-at-the-end': 'fault-inside-a-cycle workload: a slowly settling loop unrelated to the failing cell; every evaluation that works is bounded and stops early only within the tolerance',
 }
